@@ -175,6 +175,12 @@ func genC05(g GenCtx) interface{} {
 			sc.Acts = append(sc.Acts, TAct{Op: "check"})
 			inflight = 0
 		}
+		if !marathon && rng.Intn(40) == 0 {
+			sc.Acts = append(sc.Acts, TAct{Op: "crowd", Ms: 2 + rng.Intn(7)})
+		}
+	}
+	if !marathon && rng.Intn(6) == 0 {
+		sc.Acts = append(sc.Acts, TAct{Op: "crowd", Ms: 2 + rng.Intn(15)})
 	}
 	sc.Sim.Strategy.StallPermille = 0
 	return sc
